@@ -130,7 +130,7 @@ func (c *LRU) Drop(n int) {
 }
 
 func (c *LRU) drop(n int) {
-	for ; n > 0 && c.Len() > 0; n-- {
+	for ; n > 0 && len(c.table) > 0; n-- {
 		remove(c.root.prev, c.table)
 	}
 }
@@ -252,7 +252,7 @@ func (c *FIFO) Drop(n int) {
 }
 
 func (c *FIFO) drop(n int) {
-	for ; n > 0 && c.Len() > 0; n-- {
+	for ; n > 0 && len(c.table) > 0; n-- {
 		remove(c.root.prev, c.table)
 	}
 }
